@@ -71,6 +71,9 @@ func TestVerifC16Core(t *testing.T) {
 			if ci >= len(sizes) && r.Chance(2, 3) {
 				n = r.Intn(5000)
 			}
+			if ci >= len(sizes) && r.Chance(1, 4) {
+				n = 0
+			}
 			if i == 0 && ci < len(sizes) {
 				n = sizes[ci]
 			}
@@ -80,23 +83,43 @@ func TestVerifC16Core(t *testing.T) {
 				tid: TractID{Blob: BlobID(r.U64()), Index: TractKey(r.Intn(1 << 16))}, off: int64(r.Intn(1 << 23)),
 				pri: Priority(r.Intn(4)), ver: r.Intn(100), reqID: fmt.Sprintf("r%d", r.Intn(1000)), errc: Error(r.Intn(40))}
 			var err error
+			// the slice the sender holds: exact, with spare capacity, or a pooled buffer cut to the payload
+			// (an empty B in a pooled buffer is what the tractserver replies for a read at or past the end of a tract)
+			sendBuf := func() []byte {
+				switch r.Intn(4) {
+				case 0:
+					return append([]byte(nil), p...)
+				case 1:
+					b := make([]byte, n, n+r.PickInt(1, 4096))
+					copy(b, p)
+					return b
+				default:
+					c := r.PickInt(n+1, 4096, 128*1024+65536+1, 1<<20+65536)
+					if c < n+1 {
+						c = n + 1
+					}
+					b := rpc.GetBuffer(c)[:n]
+					copy(b, p)
+					return b
+				}
+			}
 			if isReq {
 				m.kind = r.Intn(2)
 				req := &gorpc.Request{ServiceMethod: "TSSrvHandler.X", Seq: m.seq}
 				if m.kind == 0 {
-					body := &CreateTractReq{TSID: m.tsid, ID: m.tid, B: append([]byte(nil), p...), Off: m.off, Pri: m.pri}
+					body := &CreateTractReq{TSID: m.tsid, ID: m.tid, B: sendBuf(), Off: m.off, Pri: m.pri}
 					err = snd.WriteRequest(req, body)
 					if body.B != nil {
 						report("core/get-does-not-clear", "CreateTractReq.Get must clear B so gob does not encode it again", nil)
 					}
 				} else {
-					body := &WriteReq{ID: m.tid, Version: m.ver, B: append([]byte(nil), p...), Off: m.off, Pri: m.pri, ReqID: m.reqID}
+					body := &WriteReq{ID: m.tid, Version: m.ver, B: sendBuf(), Off: m.off, Pri: m.pri, ReqID: m.reqID}
 					err = snd.WriteRequest(req, body)
 				}
 			} else {
 				m.kind = 2
 				resp := &gorpc.Response{ServiceMethod: "TSSrvHandler.Read", Seq: m.seq}
-				err = snd.WriteResponse(resp, &ReadReply{Err: m.errc, B: append([]byte(nil), p...)})
+				err = snd.WriteResponse(resp, &ReadReply{Err: m.errc, B: sendBuf()})
 			}
 			if err != nil {
 				t.Fatalf("send: %v", err)
